@@ -34,7 +34,7 @@ def register(prop, quick, thorough, level, rule, assumptions, probes=(), compone
 
 register(
     "C08",
-    quick=900,
+    quick=600,
     thorough=14000,
     level="exploration",
     rule=(
